@@ -62,12 +62,17 @@ static void mh_case(const mhalg_t *a, int fi, uint64_t c, int thorough)
         uint64_t seed = 0;
         if (murmur) { static const uint64_t s4[3] = { 0, 1, ~0ULL }; seed = rng_below(&r, 2) ? s4[rng_below(&r, 3)] : rng_u64(&r); }
         uint8_t *base = malloc((size_t) len + 128), *data = base + rng_below(&r, 64);
+        {       /* every fifth message lies across a 4 GiB-aligned address */
+                static uint8_t *sp; static int tried;
+                if (!tried) { tried = 1; sp = straddle_map(4u << 20); }
+                if (sp && len > 1 && len < (4u << 20) && rng_below(&r, 5) == 0) { data = sp + (4u << 20) - 1 - rng_below(&r, len - 1); out_count("messages_across_4GiB_boundary", 1); }
+        }
         rng_fill(&r, data, len);
         if (rng_below(&r, 8) == 0) memset(data, (int) rng_below(&r, 256), len);
         uint8_t exp[32], expm[16];
         if (a->dwords == 5) ref_mh_sha1(data, len, exp); else ref_mh_sha256(data, len, exp);
         if (murmur) ref_murmur3_x64_128(data, len, seed, expm);
-        uint8_t *ctxraw = malloc(a->ctx_size + 64), *ctx = ctxraw + 8 * (c & 1);       /* the context types guarantee 8-byte alignment only */
+        uint8_t *ctxraw = malloc(a->ctx_size + 64), *ctx = ctxraw + 8 * (c & 7);       /* the context types guarantee 8-byte alignment only: every residue mod 64 */
         for (int route = 0; route < 3; route++) {
                 if (!want_route[route]) continue;
                 rng_fill(&r, ctxraw, a->ctx_size + 64);        /* junk before init */
@@ -120,7 +125,10 @@ static void mh_case(const mhalg_t *a, int fi, uint64_t c, int thorough)
                         snprintf(key_, sizeof key_, "murmur-mismatch %s %s", fam_names[fi], route_name[route]);
                         out_viol(g_prop, key_, rbuf, "len=%u seed=%llx pieces=%s murmur %s expected %s", len, (unsigned long long) seed, part, g, e);
                 }
-                if (memcmp(data, data, 0)) {}
+                { static int ns; if (ns < 40) { ns++; char g[65]; hex(g, got, (size_t) 4 * a->dwords); clog_on = 1;
+                  clog_title("multi-hash streams: init, the message cut into update calls, finalize; digest compared with the multi-hash definition built on the reference SHA (and MurmurHash3_x64_128 reference)");
+                  clog_event("%s %s %s len=%u seed=%llx pieces[%s]: digest %s %s", a->name, fam_names[fi], route_name[route], len, (unsigned long long) seed, part, g, memcmp(got, exp, (size_t) 4 * a->dwords) ? "DIFFERS" : "equal to the definition");
+                  clog_on = 0; } }
                 feat(mix64(0x3142, mix64((uint64_t) (a - mhalgs) * 64 + (uint64_t) fi * 8 + (uint64_t) route, mix64(len > 2200 ? 2201 + (len >> 10) : len, (uint64_t) (seed == 0 ? 0 : seed == 1 ? 1 : seed == ~0ULL ? 2 : 3)))));
         }
         free(base); free(ctxraw);
@@ -164,14 +172,14 @@ static void run_mh_huge(const mhalg_t *a, int thorough)
         rng_t r; rng_seed(&r, g_seed ^ 0x6e6e); rng_fill(&r, st, PER);
         /* cross-validate the fast oracle with the reference on a prefix */
         { uint8_t x[32], y[32]; fast_mh(st, 70000, a->dwords, x); if (a->dwords == 5) ref_mh_sha1(st, 70000, y); else ref_mh_sha256(st, 70000, y); if (memcmp(x, y, (size_t) 4 * a->dwords)) out_err("fast multi-hash oracle disagrees with the reference"); }
-        static const uint64_t lq_mh[] = { (1ull << 29) + 100 }, lq_mur[] = { (1ull << 31) + 53 }, lt[] = { (1ull << 29) + 100, (1ull << 31) + 53, (1ull << 32) - 77 };
+        static const uint64_t lq_mh[] = { (1ull << 31) + (1ull << 20) + 100 }, lq_mur[] = { (1ull << 31) + (1ull << 20) + 53 }, lt[] = { (1ull << 29) + 100, (1ull << 31) + (1ull << 20) + 53, (1ull << 32) - 77 };
         const uint64_t *lens = thorough ? lt : murmur ? lq_mur : lq_mh; int nl = thorough ? 3 : 1;
         for (int li = 0; li < nl; li++) {
                 uint64_t len = lens[li], seed = 0x123456789abcdef1ULL;
                 uint8_t exp[32], expm[16];
                 fast_mh(st, len, a->dwords, exp);
                 if (murmur) ref_murmur3_x64_128(st, len, seed, expm);
-                for (int fi = 0; fi < 5; fi++) {
+                for (int fi = 0; fi < 5; fi++) for (int shape = 0; shape < 2; shape++) {
                         if (strcmp(famsel, "all") && strcmp(famsel, fam_names[fi])) continue;
                         snprintf(rbuf, sizeof rbuf, "{\"engine\":\"mhroll\",\"what\":\"huge\",\"alg\":\"%s\",\"fam\":\"%s\",\"len\":%llu}", a->name, fam_names[fi], (unsigned long long) len);
                         snprintf(cur_replay, sizeof cur_replay, "%s", rbuf);
@@ -179,7 +187,9 @@ static void run_mh_huge(const mhalg_t *a, int thorough)
                         memset(ctx, 0x5a, a->ctx_size);
                         LABEL("%s %s huge len=%llu", a->name, fam_names[fi], (unsigned long long) len);
                         if (murmur) ((mh_init2_f) a->init_int)(ctx, seed); else ((mh_init_f) a->init_int)(ctx);
+                        /* shape 0: four pieces below 2^31 bytes; shape 1: 7 bytes, one single update of len-1007 bytes (>= 2^31 when len allows), an empty update, 1000 bytes */
                         uint64_t cuts[4] = { (1ull << 28) + 7, len / 2 + 333, len - 1000, len }, off = 0;
+                        if (shape == 1) { cuts[0] = 7; cuts[1] = len - 1000; cuts[2] = len - 1000; if (len - 1007 >= (1ull << 31)) out_count("mh_single_updates_ge_2^31", 1); }
                         for (int k = 0; k < 4; k++) { ((mh_upd_f) a->upd[fi])(ctx, st + off, (uint32_t) (cuts[k] - off)); off = cuts[k]; out_count("mh_update_calls", 1); }
                         uint32_t dg[8]; uint8_t mur[16];
                         if (murmur) ((mh_fin2_f) a->fin[fi])(ctx, dg, mur); else ((mh_fin_f) a->fin[fi])(ctx, dg);
@@ -262,6 +272,12 @@ static void roll_case(int si, uint64_t c, int thorough)
                 if (st->hash != ref_rolling_hash(stream, w)) { snprintf(key_, sizeof key_, "rolling-reset-hash"); out_viol(g_prop, key_, rbuf, "hash after reset != hash of the %u init bytes", w); }
                 uint64_t p = w;         /* absolute position consumed so far */
                 uint8_t *copy = malloc((size_t) n + 1);  /* the library gets a private copy positioned at arbitrary alignment */
+                uint8_t *copy_base = copy;
+                {       /* every fifth stream lies across a 4 GiB-aligned address */
+                        static uint8_t *sp; static int tried;
+                        if (!tried) { tried = 1; sp = straddle_map(4u << 20); }
+                        if (sp && n > 1 && n < (4u << 20) && rng_below(&r, 5) == 0) { copy = sp + (4u << 20) - 1 - rng_below(&r, n - 1); out_count("messages_across_4GiB_boundary", 1); }
+                }
                 memcpy(copy, stream + w, n);
                 int calls = 0;
                 while (p < (uint64_t) w + n || calls == 0) {
@@ -285,6 +301,10 @@ static void roll_case(int si, uint64_t c, int thorough)
                         else match = rolling_hash2_run(st, buf, max, mask, trigger, &off);
                         calls++;
                         out_count("rolling_run_calls", 1);
+                        { static int ns; if (ns < 40) { ns++; clog_on = 1;
+                          clog_title("rolling-hash streams: init(w), reset, then run calls of arbitrary max_len over consecutive positions; offset and match flag compared with a from-scratch evaluation of the table formula at every position");
+                          clog_event("w=%u mask=%08x trigger=%08x position=%llu max_len=%u via %s: library offset=%u result=%s, model offset=%u result=%s", w, mask, trigger, (unsigned long long) p, max, route_name[route], off, match == 0 ? "HIT" : match == 1 ? "MAX" : "other", eoff, ehit ? "HIT" : "MAX");
+                          clog_on = 0; } }
                         feat(mix64(0x2011, mix64((uint64_t) si * 64 + w, mix64((uint64_t) (max == 0 ? 0 : max < w ? 1 : max == w ? 2 : 3) * 2 + (uint64_t) ehit, (uint64_t) (eoff < w ? eoff : w + (eoff > 64))))));
                         if (off != eoff || match != (ehit ? ISAL_FINGERPRINT_RET_HIT : ISAL_FINGERPRINT_RET_MAX)) {
                                 snprintf(key_, sizeof key_, "rolling-boundary %s %s", scans[si].name, route_name[route]);
@@ -309,7 +329,7 @@ static void roll_case(int si, uint64_t c, int thorough)
                 if (rc) { snprintf(key_, sizeof key_, "rolling-valid-call-failed"); out_viol(g_prop, key_, rbuf, "valid call returned %d", rc); }
                 if (memcmp(copy, stream + w, n)) { snprintf(key_, sizeof key_, "rolling-input-modified"); out_viol(g_prop, key_, rbuf, "input buffer modified"); }
                 out_count("rolling_streams", 1);
-                free(copy); free(st);
+                free(copy_base); free(st);
         }
         /* direct three-way comparison of the scan kernels on identical arguments */
         if (want_route[R_FAM] && n > w) {
@@ -347,12 +367,13 @@ static void run_rolling_huge(int thorough)
         for (int si = 0; si < 3; si++) {
                 if (strcmp(famsel, "all") && strcmp(famsel, scans[si].name)) continue;
                 force_vcpu(scans[si].vcpu);
-                for (int rep = 0; rep < (thorough ? 4 : 2); rep++) {
+                for (int rep = 0; rep < (thorough ? 6 : 3); rep++) {
                         unsigned w = rep == 0 ? 48 : 1 + (unsigned) ((g_seed + (uint64_t) rep * 13 + (uint64_t) si) % 48);
                         uint32_t mask = 0xffffffffu, max_len = rep % 2 == 0 ? 0x80000005u : (uint32_t) (N - 64 - w);
                         /* trigger = hash value found deep inside the buffer, so there is a hit at or before that position */
                         uint64_t target = rep % 2 == 0 ? (1ull << 31) - 77 : (1ull << 31) + 4099;
                         uint32_t trigger = (uint32_t) ref_rolling_hash(buf + target - w, w);
+                        if (rep == 2 || rep == 5) { trigger = 0; max_len = rep == 2 ? 0x80000005u : (uint32_t) (N - 64 - w); }       /* the zero trigger has its own loop in the base scan */
                         /* model: incremental scan for the first k >= 1 with H(buf[k-w .. k)) & mask == trigger, k counted from position w */
                         uint64_t h = ref_rolling_hash(buf, w), T2[256];
                         for (int i = 0; i < 256; i++) T2[i] = (ref_rolling_table[i] << w) | (ref_rolling_table[i] >> (64 - w));
